@@ -6,7 +6,7 @@
      p1_*, p2_*, ri_final_ok, ri_by_ok    random-improve phases 1-2 and the final insertion loop
      phase3_ok                            fee top-up
      sound_current                        C08_sound for the code as it is now *)
-From CSL Require Import Base.Prelude Num.Value Num.ValueProofs CoinSel.CoinSel CoinSel.CoinSelSpec CoinSel.CoinSelLemmas.
+From CSL Require Import Base.Prelude Num.Value Num.ValueProofs Num.ValueNorm Num.ValueNormProofs CoinSel.CoinSel CoinSel.CoinSelSpec CoinSel.CoinSelLemmas.
 From Coq Require Import Permutation Sorting.Sorted.
 Local Open Scope N_scope.
 
@@ -65,19 +65,19 @@ Section Proofs.
   Proof. intros H. unfold added_utxos. cbn. rewrite H. reflexivity. Qed.
 
   Lemma marginal_fees_snoc l : forall m fs u f,
-    marginal_fees ffi m l = Ok fs -> ffi (insert_all l m) u = Ok f ->
+    marginal_fees ffi m l = Ok fs -> ffi (insert_all (map norm_utxo l) m) u = Ok f ->
     marginal_fees ffi m (l ++ [u]) = Ok (fs + f).
   Proof.
-    induction l as [|x l IH]; intros m fs u f; cbn [marginal_fees app insert_all fold_left].
+    induction l as [|x l IH]; intros m fs u f; cbn [marginal_fees app map insert_all fold_left].
     - intros H1 H2. inversion H1; subst. rewrite H2. cbn [bind]. f_equal. lia.
     - destruct (ffi m x) as [fx| | |]; cbn [bind]; try discriminate.
-      destruct (marginal_fees ffi (imap_insert x m) l) as [fl| | |] eqn:El; cbn [bind]; try discriminate.
+      destruct (marginal_fees ffi (imap_insert (norm_utxo x) m) l) as [fl| | |] eqn:El; cbn [bind]; try discriminate.
       intros H1 H2. inversion H1; subst. rewrite (IH _ _ _ _ El H2). cbn [bind]. f_equal. lia.
   Qed.
 
   (* the accounting invariant: everything is a function of the trace *)
   Record Inv (st : sel_state) : Prop := {
-    inv_inputs : st_inputs st = insert_all (added_of (st_trace st)) m0;
+    inv_inputs : st_inputs st = insert_all (map norm_utxo (added_of (st_trace st))) m0;
     inv_out : exists fees, marginal_fees ffi m0 (added_of (st_trace st)) = Ok fees /\
                            forall sel, Q sel (st_out st) = Q sel ot0 + coin_only sel fees;
     inv_in : forall sel, Q sel (st_in st) = Q sel it0 + sumQ sel (map u_val (added_of (st_trace st)));
@@ -108,7 +108,7 @@ Section Proofs.
     destruct (vadd_new _ _ _ Iwo Eout) as [Qot Wot].
     split; [|split; [reflexivity|split; [exact Qit|exists fee; split; [reflexivity|exact Qot]]]].
     constructor; cbn [st_inputs st_in st_out st_trace].
-    - rewrite added_of_app, (added_of_one _ _ Hi), insert_all_app, <- Iin. reflexivity.
+    - rewrite added_of_app, (added_of_one _ _ Hi), map_app, insert_all_app, <- Iin. reflexivity.
     - exists (fees + fee). split.
       + rewrite added_of_app, (added_of_one _ _ Hi). apply marginal_fees_snoc; auto. rewrite <- Iin. exact Ef.
       + intros sel. rewrite Qot, Iout. destruct sel; cbn [coin_only]; lia.
@@ -779,7 +779,7 @@ Section Proofs.
   Qed.
 
   Lemma add_input_inputs i u st st' :
-    add_input ffi true i u st = (st', Done tt) -> st_inputs st' = imap_insert u (st_inputs st).
+    add_input ffi true i u st = (st', Done tt) -> st_inputs st' = imap_insert (norm_utxo u) (st_inputs st).
   Proof.
     unfold add_input. intros H.
     destruct (ffi (st_inputs st) u) as [fee| | |]; cbn [of_result obind] in H; try discriminate H.
